@@ -947,10 +947,17 @@ func driverCtor(c *Ctx) {
 					return ast.NewListNode(b, ast.NewUintNode(2, vals...).FillVariables(map[string]interface{}{"zz9": n}))
 				},
 				// ... the first variable renamed to the name of a later one that the call does not mention
-				"dupsameR": func() ast.ItemNode {
-					r := map[string]interface{}{"zz9": n}
-					return ast.NewListNode(ast.NewIntNode(2, "zz9", 7, n).FillVariables(r), ast.NewUintNode(4, "zz9", n).FillVariables(r),
-						ast.NewFloatNode(8, "zz9", 1.5, n).FillVariables(r), ast.NewBooleanNode("zz9", true, n).FillVariables(r))
+				"dupsameRI": func() ast.ItemNode {
+					return ast.NewIntNode(2, "zz9", 7, n).FillVariables(map[string]interface{}{"zz9": n})
+				},
+				"dupsameRU": func() ast.ItemNode {
+					return ast.NewUintNode(4, "zz9", n).FillVariables(map[string]interface{}{"zz9": n})
+				},
+				"dupsameRF": func() ast.ItemNode {
+					return ast.NewFloatNode(8, "zz9", 1.5, n).FillVariables(map[string]interface{}{"zz9": n})
+				},
+				"dupsameRT": func() ast.ItemNode {
+					return ast.NewBooleanNode("zz9", true, n).FillVariables(map[string]interface{}{"zz9": n})
 				},
 				"dupsameT": func() ast.ItemNode {
 					return ast.NewBooleanNode(n, "zz9").FillVariables(map[string]interface{}{"zz9": n})
